@@ -22,6 +22,8 @@ CONSTANTS
   WsLens,     \* set of lengths of whitespace-only lines (in characters of Unit[1]); {} = none
   Blank,      \* TRUE: empty lines allowed
   Suffix,     \* text appended to every code line (e.g. a multi-byte character), <<>> for none
+  TagSep,     \* separator in front of the c='e<n>' attribute of opening tags: <<SP>> or e.g. a line break plus
+              \* indentation (tags spanning two lines)
   EOL,        \* line terminator, <<NL>> or <<CR, NL>> (CRLF documents: the code knows only NL, CR is an ordinary character)
   Preamble,   \* number of filler code lines "p<i>;" in front of the generated document (pushes line numbers up)
   InlineTags, \* TRUE: an opening tag may follow code on its line ("c1; <tag>") and code may follow a closing tag
@@ -97,7 +99,7 @@ OpenTag(kd, n) ==
          ELSE <<32, 116, 111, 61>> \o Q \o FutureTo \o Q)
      \o (IF kd[1] = "S" THEN <<32, 115, 107, 105, 112>> ELSE <<>>)
      \o (IF kd[2] THEN <<32, 117, 110, 119, 114, 97, 112, 45, 98, 108, 111, 99, 107>> ELSE <<>>)
-     \o <<32, 99, 61>> \o Q \o <<101>> \o Digits(n) \o Q                                                   \* c='e<n>'
+     \o TagSep \o <<99, 61>> \o Q \o <<101>> \o Digits(n) \o Q                                                 \* c='e<n>'
      \o DE
 CloseTag(kd) == DS \o <<47>> \o TagName(kd) \o DE
 
